@@ -382,3 +382,21 @@ def rand_err_args(rng, kind, nmax=None, tiny=False, force_int=None):
                                         "optimize_with_safe_sequences": False,
                                         "optimize_with_safe_zero_edges": rng.random() < 0.5}
     return args, {"node_mode": node_mode, "is_int": is_int, "paths": paths}
+
+
+
+def adversarial_fd_instance(rng):
+    """flow on a DAG (3-4 generating paths) + subpath constraints taken from ARBITRARY source-to-sink routes of the
+    graph (contiguous, mostly 3 edges) + a relaxed coverage fraction: the constraint edges typically lie on different
+    paths of every small decomposition"""
+    import gen
+    G, paths, ws, is_int = rand_flow_dag(rng, nmax=rng.choice([5, 6, 7]), npaths=(3, 4))
+    allp = gen.all_st_paths(G)
+    cons = []
+    for _ in range(rng.randint(1, 2)):
+        p_ = rng.choice(allp); es = list(zip(p_, p_[1:]))
+        if len(es) >= 2:
+            n_ = min(len(es), rng.choice([3, 3, 3, 2]))
+            a_ = rng.randrange(0, len(es) - n_ + 1); cons.append(es[a_:a_ + n_])
+    cov = rng.choice([0.5, 0.5, 0.75, 1.0])
+    return G, cons, cov, is_int
